@@ -170,7 +170,9 @@ func (dist *BinomialDistribution) ImportConfig(config ConfigDistribution, t Scal
   if parameters, ok := config.GetParametersAsFloats(); !ok {
     return fmt.Errorf("invalid config file")
   } else {
+    // the first parameter is log(theta), see GetParameters()
     theta := NewScalar(t, parameters[0])
+    theta.Exp(theta)
     n     := int(parameters[1])
 
     if tmp, err := NewBinomialDistribution(theta, n); err != nil {
